@@ -193,11 +193,17 @@ Section Nested.
     end.
 End Nested.
 
-(* ---- binc with AsSymbols=1: the side encoder that produces the out-of-band key bytes keeps ONE
-   symbol table for all the keys of a map (encode.go :895-907: one ResetBytes, then every key).
-   A string in map-key position met for the first time is written as a definition carrying the
-   next symbol id, so the bytes of a key -- what the entries are sorted by, and what is written --
-   depend on the key's position in the runtime's iteration order. ---- *)
+(* ---- binc with AsSymbols=1.  Since /repo 36f56b8 (F01-4) a side encoder never writes binc
+   symbols (encoderBase.side): the out-of-band bytes of a string key are the plain string form,
+   a function of the key alone, so such keys are ordinary out-of-band keys ([binc_str_plain] as
+   [encO]) and C08_perm applies.
+   Before the repair the side encoder kept ONE symbol table for all the keys of a map: a string
+   met for the first time was written as a definition carrying the next symbol id, so the bytes
+   of a key -- what the entries are sorted by, and what is written -- depended on the key's
+   position in the runtime's iteration order ([enc_map_canon_binc_syms], kept as the record of
+   the repaired defect F08-3). ---- *)
+Definition binc_str_plain (s : list N) : list N := (64 + N.of_nat (length s))%N :: s.
+
 Definition sym_def (id : nat) (s : list N) : list N :=
   [180; N.of_nat id; N.of_nat (length s)]%N ++ s.
 
@@ -207,7 +213,6 @@ Fixpoint side_encode_syms (next : nat) (ks : list (list N)) : list (list N) :=
   | s :: r => sym_def next s :: side_encode_syms (S next) r
   end.
 
-(* distinct string keys held in interface{}; es in iteration order; result: (written key bytes, value) *)
 Definition enc_map_canon_binc_syms {V : Type} (es : list (list N * V)) : list (list N * V) :=
   let encs := side_encode_syms 1 (map fst es) in
   isort (fun a b => lex_leb (map Z.of_N (fst a)) (map Z.of_N (fst b))) (combine encs (map snd es)).
